@@ -167,7 +167,7 @@ impl Property for C08 {
         vec!["equality of terminals is coefficient equality (AffFuncBase PartialEq)".into()]
     }
     fn cases(&self, tier: Tier) -> usize {
-        tier.pick(12000, 60_000)
+        tier.pick(40000, 600_000)
     }
     fn strategy(&self, tier: Tier) -> BoxedStrategy<Case> {
         let maxd = tier.pick(4u32, 5u32);
